@@ -41,7 +41,8 @@ func mentionsRTL(info *types.Info, e ast.Node, rtlConst types.Object, dirVars ma
 	ast.Inspect(e, func(n ast.Node) bool {
 		switch x := n.(type) {
 		case *ast.BinaryExpr:
-			if x.Op == token.AND || x.Op == token.AND_NOT {
+			// `x &^ RightToLeft` masks the bit OUT: it is not a test of the direction
+			if x.Op == token.AND {
 				for _, side := range []ast.Expr{x.X, x.Y} {
 					if core.ObjOf(info, side) == rtlConst && rtlConst != nil {
 						found = true
@@ -793,5 +794,90 @@ func RDirTrunc(c *core.Ctx) {
 	}
 	if n == 0 {
 		c.Anchor("a one-sided truncation of a text passed along with a direction value")
+	}
+}
+
+// ---------------------------------------------------------------------------
+// R-ATOMSUCC: which successors let a loop become atomic.
+//
+// canBeMadeAtomic upgrades a greedy single-character loop to an atomic one
+// when giving characters back can never help the node that follows.  For a
+// consuming successor that is a disjointness test, checked elsewhere by
+// value.  For a zero-width successor the argument has to be made per kind:
+//   End / EndZ / Eol     succeed only at the end (or before a final \n the loop cannot match)
+//   Boundary (\b)        after a greedy run of word characters the next character is not one,
+//                        so \b holds at the greedy end and at no earlier position of the run
+//   Nonboundary (\B)     after a greedy run of NON-word characters \B FAILS at the greedy end
+//                        when a word character follows, and HOLDS one position earlier
+//                        (between two non-word characters): backtracking is needed
+// so \B (and its ECMAScript form) must not appear among the accepted kinds.
+// ---------------------------------------------------------------------------
+
+var atomSuccTable = map[string]string{
+	"NtOne": "consuming: disjointness", "NtNotone": "consuming: disjointness", "NtSet": "consuming: disjointness", "NtMulti": "consuming: disjointness of its first matched character",
+	"NtEnd": "holds only at the end of the text", "NtEndZ": "end, or before a final newline the loop cannot consume", "NtEol": "end, or before a newline the loop cannot consume",
+	"NtBoundary":     "a greedy run of word characters ends at a boundary; no earlier position of the run is one",
+	"NtECMABoundary": "same with the ECMAScript word class",
+	"NtOneloop":      "loop-kind dispatch on the node itself", "NtOnelazy": "loop-kind dispatch", "NtNotoneloop": "loop-kind dispatch", "NtNotonelazy": "loop-kind dispatch", "NtSetloop": "loop-kind dispatch", "NtSetlazy": "loop-kind dispatch",
+	"NtConcatenate": "walks into / out of a concatenation", "NtCapture": "transparent wrapper", "NtAtomic": "transparent wrapper", "NtAlternate": "every branch is checked recursively", "NtExprCond": "condition, yes and no branch are all checked recursively (only with both branches present)",
+	"NtLoop": "M > 0 loops: their first iteration follows", "NtLazyloop": "M > 0 loops: their first iteration follows", "NtPosLook": "a lookahead is evaluated at the loop's end", "NtEmpty": "matches nothing: look at what follows",
+}
+
+func RAtomSucc(c *core.Ctx) {
+	c.Rule("R-ATOMSUCC", "every node kind that canBeMadeAtomic tests its successor (or the path to it) against is one for which giving characters back cannot help; in particular \\B / ECMAScript \\B are not accepted: after a greedy run of non-word characters \\B fails at the run's end when a word character follows and holds one character earlier", 10)
+	p := c.P
+	syn := p.Pkg("syntax")
+	info := syn.TypesInfo
+	fd, _ := p.DeclOf(p.LookupFunc("syntax", "RegexNode.canBeMadeAtomic"))
+	tField := p.LookupField("syntax", "RegexNode", "T")
+	if fd == nil || tField == nil {
+		c.Anchor("syntax.RegexNode.canBeMadeAtomic / RegexNode.T")
+		return
+	}
+	c.Visit("syntax.(*RegexNode).canBeMadeAtomic")
+	seen := map[string]int{}
+	check := func(e ast.Expr, pos token.Pos) {
+		id, ok := ast.Unparen(e).(*ast.Ident)
+		if !ok {
+			return
+		}
+		k, ok := info.ObjectOf(id).(*types.Const)
+		if !ok || !strings.HasPrefix(k.Name(), "Nt") {
+			return
+		}
+		seen[k.Name()]++
+		key := fmt.Sprintf("canBeMadeAtomic / successor kind %s #%d is one that cannot profit from backtracking", k.Name(), seen[k.Name()])
+		switch reason, ok := atomSuccTable[k.Name()]; {
+		case ok:
+			c.OK(key, pos, "%s", reason)
+		case k.Name() == "NtNonboundary" || k.Name() == "NtNonECMABoundary":
+			c.Bad(key, pos, "\\B after a greedy run of non-word characters fails at the run's end when a word character follows but holds one character earlier, so the loop must be able to give a character back (\\W+\\B, \\D+\\B, -+\\B)")
+		default:
+			c.Unknown(key, pos, "no soundness argument recorded for this successor kind")
+		}
+	}
+	ast.Inspect(fd.Body, func(x ast.Node) bool {
+		switch b := x.(type) {
+		case *ast.BinaryExpr:
+			if b.Op == token.EQL || b.Op == token.NEQ {
+				if core.FieldOf(info, b.X) == tField {
+					check(b.Y, b.Pos())
+				} else if core.FieldOf(info, b.Y) == tField {
+					check(b.X, b.Pos())
+				}
+			}
+		case *ast.SwitchStmt:
+			if b.Tag != nil && core.FieldOf(info, b.Tag) == tField {
+				for _, st := range b.Body.List {
+					for _, e := range st.(*ast.CaseClause).List {
+						check(e, e.Pos())
+					}
+				}
+			}
+		}
+		return true
+	})
+	if len(seen) == 0 {
+		c.Anchor("kind tests in canBeMadeAtomic")
 	}
 }
